@@ -1,7 +1,8 @@
 /-
   Access control model (C15): `http/auth.go` composed with hagall-common's token extraction
   (`GetUserTokenFromHTTPRequest`) and verification (`hdsclient.VerifyUserAuth`,
-  `VerifyHagallUserAccessToken`, golang-jwt v4).  HMAC-SHA-2 is an oracle: whether the signature of a
+  `VerifyHagallUserAccessToken`, golang-jwt v4) and the check of `http/auth.go` that the token is a user access token
+  (`verifyUserAccessToken`, finding F41).  HMAC-SHA-2 is an oracle: whether the signature of a
   token is the MAC of its signing input under the server's current secret is an input (`macOk`).
 -/
 namespace Hagall.Auth
@@ -14,6 +15,7 @@ structure Tok where
   exp : Option Int        -- `exp` minus now, in seconds, when the claim is present
   iat : Option Int        -- `iat` minus now
   nbf : Option Int        -- `nbf` minus now
+  issHDS : Bool := true   -- the `iss` claim is present and reads "HDS"
 deriving Repr, DecidableEq, Inhabited
 
 /-- the three carriers of a request; each holds a string or is absent -/
@@ -43,8 +45,12 @@ def claimsOk (t : Tok) : Bool :=
   else if iatBad && !expBad && !nbfBad then (match t.iat with | some d => d < 10 | none => false)
   else false
 
+/-- what the discovery service issues to users names it as the issuer and expires; the identity the server signs with
+    the same secret for the discovery service (and hands to whoever asks for its health as HDS does) has neither -/
+def userToken (t : Tok) : Bool := t.issHDS && t.exp.isSome
+
 def verify (t : Tok) : Bool :=
-  t.wellFormed && hmacFamily.contains t.alg && t.macOk && claimsOk t
+  t.wellFormed && hmacFamily.contains t.alg && t.macOk && claimsOk t && userToken t
 
 /-- is the request admitted? `secretSet`: the server currently holds a (non-empty) secret -/
 def admitted (secretSet : Bool) (c : Carriers Tok) : Bool :=
